@@ -27,7 +27,9 @@ class VGen:
 
     def fresh(self, stem):
         self.n += 1
-        return "%s%s%d" % (self.prefix, stem, self.n)
+        # a few letters of every part of the alphabet, in both cases, so that case folding is exercised on all of it
+        tail = ["", "", "", "z", "Zq", "jk", "WX", "y"][self.n % 8]
+        return "%s%s%s%d" % (self.prefix, stem, tail, self.n)
 
     def pick(self, seq):
         return seq[self.rng.randrange(len(seq))]
@@ -63,7 +65,11 @@ class VGen:
                 for _ in range(r.randint(1, 4)):
                     tk = self.pick(["elem", "elem", "enum", "struct"])
                     if tk == "enum" and enums:
-                        elems.append([self.fresh("m"), self.pick(enums)["name"]])
+                        e_ = self.pick(enums)
+                        if self.chance(0.5):
+                            elems.append([self.fresh("m"), "%s := %s" % (e_["name"], self.pick(e_["values"]))])
+                        else:
+                            elems.append([self.fresh("m"), e_["name"]])
                     elif tk == "struct" and structs:
                         elems.append([self.fresh("m"), self.pick(structs)["name"]])
                     else:
@@ -142,7 +148,10 @@ class VGen:
         vars_ = []
         scalars = []          # names of elementary variables usable in expressions / as targets
         for cls in ["VAR_INPUT", "VAR_OUTPUT", "VAR"]:
-            for _ in range(r.randint(1 if cls != "VAR" else 2, 3)):
+            lo = 1 if cls != "VAR" else 2
+            if cls != "VAR" and kind == "fb" and self.chance(0.15):
+                lo = 0          # a function block without inputs / outputs is valid too
+            for _ in range(r.randint(lo, 3) if lo else 0):
                 qual = ""
                 if cls == "VAR":
                     qual = self.pick(["", "", "RETAIN", "NON_RETAIN"])
@@ -526,6 +535,17 @@ def plant_all(decls):
                 m = copy.deepcopy(decls)
                 m[i]["programs"][j][1] = "NoSuchTask"
                 yield "P0011", "progconf%d" % j, m, ["NoSuchTask"]
+        if k == "function":
+            for lst, idx, path in walk_stmts(d["body"]):
+                st = lst[idx]
+                nest = "/".join(path) or "top"
+                if st[0] == "assign":
+                    m = copy.deepcopy(decls)
+                    for l2, i2, p2 in walk_stmts(m[i]["body"]):
+                        if p2 == path and l2[i2] == st:
+                            l2[i2][2] = "(undeclaredVar + 1)"
+                            break
+                    yield "P0015", "function:%s:%s:rhs" % (pos, nest), m, ["undeclaredVar"]
         if k in ("fb", "program"):
             # declarations
             for j, v in enumerate(d["vars"]):
@@ -614,6 +634,21 @@ def plant_all(decls):
                             l2[i2][2] = []
                             break
                     yield "P0021", "%s:%s:%s" % (k, pos, nest), m, ["noSuchInstance"]
+                    # an undeclared variable that occurs only inside the argument list of the invocation
+                    arg_faults = []
+                    if ins:
+                        arg_faults.append(("in", [["in", ins[0]["name"], "undeclaredVar"]]))
+                        arg_faults.append(("in-expr", [["in", ins[0]["name"], "(1 + undeclaredVar)"]]))
+                        arg_faults.append(("pos", [["pos", "undeclaredVar"]] + [["pos", "1"]] * (len(ins) - 1)))
+                    if outs:
+                        arg_faults.append(("out", [["out", outs[0]["name"], "undeclaredVar"]]))
+                    for what, args in arg_faults:
+                        m = copy.deepcopy(decls)
+                        for l2, i2, p2 in walk_stmts(m[i]["body"]):
+                            if p2 == path and l2[i2] == s:
+                                l2[i2][2] = args
+                                break
+                        yield "P0015", "%s:%s:%s:fbcall-arg-%s" % (k, pos, nest, what), m, ["undeclaredVar"]
 
 
 def first_target(d):
